@@ -133,11 +133,15 @@ def run_system(case, events, callbacks=None, target=None):
     prob = problem(case["problem"], t0)
     y0 = np.array(prob.y0, dtype=dtype)
     tol = case.get("tol", 1e-8)
-    a = de.OdeSystem(prob.f, y0=y0, t=(dtype(t0), dtype(tf)), dt=dtype(case["dt0"]), rtol=dtype(tol), atol=dtype(tol), dense_output=bool(case["dense"]))
+    # 'against': the system is configured with the mirrored span; the direction of the run is chosen by integrate(t) alone
+    tf_cfg = (2 * t0 - tf) if case.get("against") else tf
+    a = de.OdeSystem(prob.f, y0=y0, t=(dtype(t0), dtype(tf_cfg)), dt=dtype(case["dt0"]), rtol=dtype(tol), atol=dtype(tol), dense_output=bool(case["dense"]))
     a.method = lc.by_name(case["method"])
     b = driver.Budget(case.get("budget", 20000))
     cbs = list(callbacks or []) + [b]
     raised = None
+    if target is None and case.get("against"):
+        target = dtype(tf)
     try:
         if target is None:
             a.integrate(events=events, callback=cbs)
@@ -230,7 +234,11 @@ def cells(quick):
                                     continue
                                 evs = [dict({k_: v_ for k_, v_ in e.items() if k_ != "smul"},
                                             s=((s if (i % 2 == 0 or len(es) < 2) else s * (1e-3 if s >= 1 else 1e3)) if si % 3 == 2 else s) * e.get("smul", 1.0), dir=dr) for i, e in enumerate(es)]
-                                out.append(dict(problem=pname, span=list(span), dt0=dt0, method=m, dense=dense, dtype="float64", events=evs, tol=1e-8))
+                                # every third cell runs against the configured span; a declared sub-lattice also runs in longdouble
+                                k_cell = len(out)
+                                out.append(dict(problem=pname, span=list(span), dt0=dt0, method=m, dense=dense, dtype="float64", events=evs, tol=1e-8, against=(k_cell % 3 == 1)))
+                                if quick and s == 1.0 and dr == 0 and m in ("RK4Solver", "RK45CKSolver") and dense:
+                                    out.append(dict(problem=pname, span=list(span), dt0=dt0, method=m, dense=dense, dtype="longdouble", events=evs, tol=1e-8, against=(k_cell % 2 == 0)))
     if not quick:
         extra = []
         for c in out:
